@@ -66,8 +66,16 @@ def gen(tier, rng):
         key = "\n".join(prog)
         typeit = [sess.E(l) for l in prog]
         cases.append(Case(sess.session(["R5000"] + typeit + [sess.E("RUN"), "R5000"]), sig=key, tag="original-run", meta=("orig", pi)))
-        for _ in range(3 if tier == "quick" else 6):
-            args = renum_args(rng)
+        nl = len(prog)
+        edge = []
+        for _ in range(2):
+            # the arithmetic progression ends exactly on the highest line number, or up to six numbers beyond it (65530..65535 are
+            # no line numbers, although they fit the machine word the numbers are kept in)
+            step = rng.choice([1, 2, 5, 10])
+            start = 65529 - step * (nl - 1) + rng.choice([0, 1, 2, 6, 0, 3])
+            if 0 <= start <= 65529:
+                edge.append("%d,,%d" % (start, step))
+        for args in edge + [renum_args(rng) for _ in range(3 if tier == "quick" else 6)]:
             calls = ["R5000"] + typeit + ["T", sess.E(("RENUM " + args).strip()), "R5000", "T", sess.E("RUN"), "R5000"]
             cases.append(Case(sess.session(calls), sig=key + "\n#RENUM " + args, tag="renum", meta=("renum", pi, args)))
     return cases
